@@ -20,6 +20,9 @@ import (
 	"encoding/json"
 	"fmt"
 	"math/big"
+	"os"
+	"path/filepath"
+	"regexp"
 	"sort"
 	"strconv"
 	"strings"
@@ -112,7 +115,13 @@ func (w *world) addAcct(b []byte) int {
 }
 
 func newWorld(r *hx.Rng) *world {
+	return newWorldCfg(r, false)
+}
+
+func newWorldCfg(r *hx.Rng, sub bool) *world {
+	activate(sub)
 	w := &world{nodeWorld: newNodeWorld(), heights: map[uint64]bool{}, ghost: map[string]int64{}, ncOf: map[int]int{}}
+	w.Sub = sub
 	w.h = 20 + uint64(r.Intn(1000))
 	// ids: four 32-byte ids (first byte != 0x70), two short ones; no id is a prefix of another
 	for i := 0; i < 4; i++ {
@@ -684,13 +693,16 @@ func main() {
 
 	blocksPerWorld := 45
 	var w *world
+	worlds := 0
 	for i := 0; i < a.N; i++ {
 		if w == nil || w.blocks >= blocksPerWorld {
-			w = newWorld(rng)
+			worlds++
+			w = newWorldCfg(rng, worlds%3 == 0) // every third world runs the sub-chain configuration
 		}
 		w.step(rng, res, cs)
 	}
 	aliasSearch(rng, res, cs)
+	switchNotes(res)
 	cs.Close()
 	litCases.Close()
 	res.ModelCases = cs.Total() + litCases.Total()
@@ -847,6 +859,12 @@ func (w *world) runCaseBlock(r *hx.Rng, res *hx.Result, h uint64, g []gtx, casto
 			ms = append(ms, w.ids[m-1])
 		}
 		groups[string(groupId)] = &types.Group{Id: groupId, Members: ms}
+		putGroup(&types.Group{Id: groupId, Members: ms})
+	}
+	if w.Sub {
+		// sub chain: after() pays rewards through the economy / RPG-reward contracts (calcSubReward: two EVM calls, no code
+		// at those addresses in this world) instead of the reward table: nothing is scheduled by the block
+		members = nil
 	}
 	br.mids = make([]midobs, len(g))
 	var rcs []*types.Receipt
@@ -1232,7 +1250,7 @@ func (w *world) step(r *hx.Rng, res *hx.Result, cs *hx.Cases) {
 		if err != nil {
 			panic(err)
 		}
-		w.nodeWorld = &nodeWorld{TDB: mainNW.TDB, ADB: sibADB, Root: parentRoot}
+		w.nodeWorld = &nodeWorld{TDB: mainNW.TDB, ADB: sibADB, Root: parentRoot, Sub: mainNW.Sub}
 		w.ghost = ghost0
 		brB := w.runCaseBlock(r, res, h, gB, castor, nil, pre, inputB)
 		rootB := w.Root
@@ -1267,6 +1285,10 @@ func (w *world) step(r *hx.Rng, res *hx.Result, cs *hx.Cases) {
 	nb := len(g)
 	if nb > 6 {
 		nb = 6
+	}
+	if w.Sub {
+		ident = "sub|" + ident
+		res.Histogram["block on a sub-chain world"]++
 	}
 	res.Count("block["+strconv.Itoa(nb)+"]", ident, reached)
 	if len(br.rewards) > 0 {
@@ -1808,4 +1830,56 @@ func (w *world) purityCheck(res *hx.Result, rootA, rootB common.Hash, qh uint64,
 	} else {
 		res.Histogram["sibling states with equal proposer counts"]++
 	}
+}
+
+// switchNotes: the configuration switches (package common) called on the execution path of this check - found by
+// scanning the sources of the path in the repository under test - with the values each world family ran under, so
+// that a branch no run exercised is visible in the evidence.
+func switchNotes(res *hx.Result) {
+	repo := os.Getenv("VERIF_REPO")
+	if repo == "" {
+		repo = "/repo"
+	}
+	files := []string{"src/core/vmexecutor.go", "src/core/vmexecutor_sub.go", "src/executor/miner_executor.go", "src/executor/miner_node_executor.go",
+		"src/executor/base_executor.go", "src/service/miner_manager.go", "src/service/refund_manager.go", "src/service/reward_calculator.go",
+		"src/service/transaction_pool.go", "src/storage/account/accountdb_tuntun.go", "src/consensus/access/miner_access.go"}
+	re := regexp.MustCompile(`common\.(Is[A-Za-z0-9]+)\(`)
+	used := map[string][]string{}
+	for _, f := range files {
+		b, err := os.ReadFile(filepath.Join(repo, f))
+		if err != nil {
+			continue
+		}
+		seen := map[string]bool{}
+		for _, m := range re.FindAllStringSubmatch(string(b), -1) {
+			if !seen[m[1]] {
+				seen[m[1]] = true
+				used[m[1]] = append(used[m[1]], filepath.Base(f))
+			}
+		}
+	}
+	names := make([]string, 0, len(used))
+	for n := range used {
+		names = append(names, n)
+	}
+	sort.Strings(names)
+	var lines []string
+	for _, n := range names {
+		cov := []string{}
+		for _, fam := range []string{"main-chain worlds", "sub-chain worlds"} {
+			v := switchCover[fam][n]
+			switch {
+			case v == nil:
+				cov = append(cov, fam+": not evaluated")
+			case v[true] > 0 && v[false] > 0:
+				cov = append(cov, fam+": true and false")
+			case v[true] > 0:
+				cov = append(cov, fam+": true only")
+			default:
+				cov = append(cov, fam+": false only")
+			}
+		}
+		lines = append(lines, fmt.Sprintf("%s (%s) - %s", n, strings.Join(used[n], ","), strings.Join(cov, "; ")))
+	}
+	res.Note("configuration switches on the execution path and the values the runs covered (dev chain config, all proposals active from height 0): " + strings.Join(lines, " | "))
 }
